@@ -285,6 +285,12 @@ func genFaultWorkload(r *Rng) (int, []string) {
 		out = append(out, "store "+logTok(l))
 		next++
 	}
+	if r.Bool() {
+		// a suffix truncation inside the tail segment after the fault (ForceSeal of whatever the failed call left
+		// behind), then the restart
+		out = append(out, fmt.Sprintf("del %d %d", next-1, next-1))
+		next--
+	}
 	out = append(out, "reopen")
 	l := &raft.Log{Index: next, Term: 8, Data: r.Bytes(8)}
 	out = append(out, "store "+logTok(l), "reopen")
